@@ -7,6 +7,7 @@ import (
 	"fmt"
 	"go/types"
 	"math/big"
+	"regexp"
 	"strings"
 
 	"golang.org/x/tools/go/ssa"
@@ -117,8 +118,20 @@ func (tc *TypeCtx) scalarSort(t types.Type) *Sort {
 }
 
 func typeKey(t types.Type) string {
-	return types.TypeString(t, func(p *types.Package) string { return p.Path() })
+	s := types.TypeString(t, func(p *types.Package) string { return p.Path() })
+	// byte and rune are aliases: one memory per underlying type
+	if strings.Contains(s, "byte") || strings.Contains(s, "rune") {
+		s = aliasRe.ReplaceAllStringFunc(s, func(m string) string {
+			if m == "byte" {
+				return "uint8"
+			}
+			return "int32"
+		})
+	}
+	return s
 }
+
+var aliasRe = regexp.MustCompile(`\b(byte|rune)\b`)
 
 func (tc *TypeCtx) leaves(t types.Type) []leafInfo {
 	k := typeKey(t)
